@@ -1019,6 +1019,14 @@ func chRender(c *chComp, argkind string) chRenderEv {
 	ev := chRenderEv{K: "render", C: c, Argkind: argkind, Plain: []int{}, Ansi: []int{}}
 	m := chBuild(c, argkind)
 	var msg1, msg2 string
+	if chRenderCount++; chRenderCount%3 == 0 && chLangDecoy != nil {
+		// the language was another one a moment ago: the same component was rendered under a decoy table, then the
+		// table of the specification was installed again - what is rendered now is rendered under the table that is
+		// installed NOW (nothing remembered from the earlier one may show)
+		chat.SetLanguage(chLangDecoy)
+		catch(func() { _ = m.ClearString(); _ = m.String() })
+		chat.SetLanguage(chLangReal)
+	}
 	ev.Ppanic, msg1 = catch(func() { ev.Plain = ints([]byte(m.ClearString())) })
 	ev.Apanic, msg2 = catch(func() { ev.Ansi = ints([]byte(chCSI.ReplaceAllString(m.String(), ""))) })
 	ev.Msg = vkTrunc(msg1+msg2, 300)
@@ -1061,6 +1069,12 @@ func chSetLang(lang []chLangEnt) {
 		m[chStr(e.Key)] = sb.String()
 	}
 	chat.SetLanguage(m)
+	chLangReal = m
+	// a decoy table: the same keys with other texts (what another language is) plus keys the real table does not have
+	chLangDecoy = map[string]string{"zz": "decoy %s", "no.such.key": "decoy"}
+	for k, f := range m {
+		chLangDecoy[k] = "<" + strings.ToUpper(f) + ">"
+	}
 	chLangKeys = map[string]int{}
 	for _, e := range lang {
 		n := 0
@@ -1075,6 +1089,8 @@ func chSetLang(lang []chLangEnt) {
 
 var chLangKeys map[string]int
 var chLangTable []chLangEnt
+var chLangReal, chLangDecoy map[string]string
+var chRenderCount int
 
 // ---------------------------------------------------------------- signatures
 
